@@ -127,7 +127,8 @@ def run(ctx):
             # the run died in unbounded recursion before the history could be attached: rebuild it from the selector values
             inp = v.get('inputs') or rr.get('inputs') or {}
             names = [OPS[int(inp['op%d' % i])][0] for i in range(8) if 'op%d' % i in inp]
-            if any('_h' in n for n in names): return 'arr.hist:hashmap-cycle:' + ';'.join(names).replace(' ', '_')
+            hs = [n for n in names if n.startswith('_h set')]
+            if hs: return 'arr.hist:hashmap-cycle:' + hs[0].replace(' ', '_')       # the same classes as the histories that are compared with the reference
             return 'arr.hist:recursion:' + ';'.join(names).replace(' ', '_')
         for x in rr.get('violations', []):
             if x['msg'] == v['msg'] and x.get('cls') == 'hashmap-cycle': return 'arr.hist:hashmap-cycle:' + next((n for n in x['hist'] if n.startswith('_h set')), 'x').replace(' ', '_')
